@@ -50,6 +50,9 @@ def do_op(world, op, ctx):
         kw = {}
         if "n_inner" in op:
             kw["n_inner_samples"] = op["n_inner"]
+            if op.get("n_inner_type"):        # an integer of another type (NumPy) is still "n_inner_samples >= 1"
+                import numpy as _np
+                kw["n_inner_samples"] = getattr(_np, op["n_inner_type"])(op["n_inner"])
         cls = ecfg["cls"]
         if cls in ("pfi", "sage", "interval") and "us" in op:
             kw["update_storage"] = op["us"]
